@@ -20,6 +20,20 @@ EXPLANATION = ('CLAUSES. (R1) the returned payload is -sum/(number of molecules)
 ADT = 'state::potential::PotentialState'
 
 
+# Crystals of the default trimer (LJShape2::from_trimer(r, 120, 1): outer particles at (+-0.866, 1/6), every particle cut at 3.5)
+# in which a pair of particles closer than the cutoff lies in the stated image shell (plain geometry, recomputed in
+# DESIGN section 11.2): whatever number of shells the score searches for these cells must be at least that.
+RANGE_WITNESSES = [
+    {'name': 'p1-trimer-square-1.2', 'a': 1.2, 'b': 1.2, 'angle': 1.5707963267948966, 'min_shells': 4,
+     'why': 'the outer particles of a molecule and of its image four cells along a are 4*1.2 - 1.732 = 3.068 < 3.5 apart'},
+    {'name': 'p1-trimer-square-1.7', 'a': 1.7, 'b': 1.7, 'angle': 1.5707963267948966, 'min_shells': 3,
+     'why': 'the outer particles of a molecule and of its image three cells along a are 3*1.7 - 1.732 = 3.368 < 3.5 apart'},
+    {'name': 'p2-trimer-square-4', 'a': 4.0, 'b': 4.0, 'angle': 1.5707963267948966, 'min_shells': 2,
+     'why': 'with the p2 site at x = 0.45 the second molecule\'s image two cells along a has a particle 2.689 < 3.5 from a '
+            'particle of the first'},
+]
+
+
 def run(ctx):
     rep, f = ctx.rep, ctx.facts
     rep.assume('NOT DECIDED: that the 3 searched shells cover the cutoff / the truncated sum has converged (depends on cell '
@@ -166,6 +180,11 @@ def run(ctx):
                  'undecidable-shape')
     if per and per.get('shell_values'):
         rep.sample('periodic image range: shells = %s (sufficiency for the cutoff is not decided)' % [str(v[1]) for v in per['shell_values']])
+    # ---- R6 crystals whose geometry REQUIRES a number of image shells (necessary instances of the undecided sufficiency) -----
+    if per is not None:
+        from .C01 import _shell_witnesses
+        _shell_witnesses(ctx, pl, per, per.get('shell_cases'), witnesses=RANGE_WITNESSES, rule='R6',
+                         consequence='pairs within the cutoff are left out of the lattice sum')
     # ---- R3 frames ---------------------------------------------------------------------------------
     probs = positions_frames(f, ADT)
     rep.check(not probs, 'R3', 'placements-are-cartesian', ADT, 'both operands of every energy() are Cartesian placements of the shape',
